@@ -56,6 +56,8 @@ def judge(rep, pid, scens, label):
     rep.cov.setdefault("model_list_equal", 0); rep.cov.setdefault("model_list_differs", 0)
     rep.cov["model_list_equal"] += summ.get("model_list_equal", 0)
     rep.cov["model_list_differs"] += summ.get("model_list_differs", 0)
+    for c in summ.get("crashed", []):
+        rep.violation("the harness process dies or hangs while executing this scenario alone", {"engine": "reclist", "scenario": scens[c["t"]], "rules": ["process-crash-or-hang"], "why": c["why"]})
     seen = set()
     for b in bad:
         if b["t"] in seen:
